@@ -83,6 +83,43 @@ class Result:
             self.add_violation(v)
 
 
+def run_imports(ctx, res, pid, mod):
+    """Clauses of sibling properties on which this property's argument rests (module attribute IMPORTS:
+    list of (property, tuple of rule-name prefixes or None for all, reason)).  They are re-decided here on the same
+    facts and a failure is reported under this property, naming the imported clause; imports are not transitive."""
+    imports = getattr(mod, "IMPORTS", [])
+    if not imports:
+        return
+    summary = []
+    for ipid, prefixes, reason in imports:
+        sub = Result()
+        imod = importlib.import_module("analysis.rules." + ipid)
+        try:
+            imod.run(ctx, sub)
+        except Inconclusive as e:
+            sub.add_violation(dict(rule="INCONCLUSIVE", key="%s|INCONCLUSIVE|%s" % (ipid, str(e)[:120]), msg=str(e)))
+        except KeyError as e:
+            traceback.print_exc()
+            sub.add_violation(dict(rule="ANCHOR", key="%s|ANCHOR|%s" % (ipid, str(e)[:120]), msg="anchor not found: %s" % e))
+        taken = 0
+        for v in sub.violations:
+            if prefixes is not None and v["rule"] not in ("INCONCLUSIVE", "ANCHOR") \
+                    and not any(v["rule"].startswith(p) for p in prefixes):
+                continue
+            taken += 1
+            res.add_violation(dict(v, rule="%s.via(%s)" % (pid, v["rule"]), key="%s|via|%s" % (pid, v["key"]),
+                                   msg="[imported clause of %s: %s] %s" % (ipid, reason, v["msg"])))
+        res.obligations += sub.obligations
+        res.evaluations += sub.evaluations
+        res.discharged += sub.discharged if not taken else max(0, sub.discharged)
+        res.distinct |= {"via|%s|%s" % (ipid, k) for k in sub.distinct}
+        summary.append(dict(property=ipid, clauses="all" if prefixes is None else list(prefixes), reason=reason,
+                            obligations=sub.obligations, discharged=sub.discharged, violations_taken=taken))
+        print("  import %s (%s): obligations=%d violations=%d" % (
+            ipid, "all" if prefixes is None else ",".join(prefixes), sub.obligations, taken))
+    res.extra["imports"] = summary
+
+
 def load_known():
     if not os.path.exists(KNOWN):
         return {"known": [], "fixed": []}
@@ -126,6 +163,7 @@ def main(argv=None):
         mod = importlib.import_module("analysis.rules." + pid)
         print("[%s] tier=%s tree=%s" % (pid, tier, ctx.key))
         mod.run(ctx, res)
+        run_imports(ctx, res, pid, mod)
     except Inconclusive as e:
         fatal = "INCONCLUSIVE: %s" % e
         res.add_violation(dict(rule="INCONCLUSIVE", key="%s|INCONCLUSIVE|%s" % (pid, str(e)[:120]), msg=str(e)))
@@ -136,6 +174,11 @@ def main(argv=None):
         fatal = "ANCHOR: %s" % e
         traceback.print_exc()
         res.add_violation(dict(rule="ANCHOR", key="%s|ANCHOR|%s" % (pid, str(e)[:120]), msg="anchor not found: %s" % e))
+    except Exception as e:      # fail closed: an analysis that cannot finish decides nothing
+        fatal = "INTERNAL: %r" % e
+        traceback.print_exc()
+        res.add_violation(dict(rule="INTERNAL", key="%s|INTERNAL|%s" % (pid, type(e).__name__),
+                               msg="the analysis did not complete (%r); nothing is decided" % e))
     wall = time.time() - t0
 
     known = load_known()
